@@ -75,3 +75,178 @@ Example cache_duplicates_keeps_repeated : cached_offsets Duplicates [8; 0; 8; 3;
 Proof. vm_compute. reflexivity. Qed.
 Example cache_all_keeps_each_once : cached_offsets All [8; 0; 8; 3; 0; 8]%N = [0; 3; 8]%N.
 Proof. vm_compute. reflexivity. Qed.
+
+(* ------------------------------------------------------------------------------------------
+   Entry buffers, the cursor's cached entry, EntriesTree re-rooting, clones.
+   Model/EntryBuf.v threads the caller's DebuggingInformationEntry through EntriesRaw::read_entry exactly
+   as src/read/unit.rs does (depth/offset first, attrs cleared and refilled one at a time, set_null for a
+   null entry, partial contents left behind by an Err), makes cached_current / EntriesTree::entry that
+   buffer, and restarts EntriesTree from `root`. The pure parsers are those of Model/DieRd.v (C02).
+   Streams c20.bufm / c20.curm / c20.treem tie it to gimli step by step — including the dirty buffer
+   after failed reads. *)
+From Coq.Strings Require Import Byte.
+Require Import GV.Spec.FormSpec GV.Model.Attr GV.Spec.Forest GV.Model.AbbrevRd GV.Model.DieRd.
+Require Import GV.Model.EntryBuf GV.Proofs.EntryBufProofs.
+
+(* the buffer-threading read is the pure read of the C02 model: same result, same entry, same reader *)
+Theorem read_entry_buf_is_read_entry : forall dbg e tbl r b,
+  match read_entry_buf dbg e tbl r b with
+  | RdOk k b' r' => read_entry dbg e tbl r = Ok (k, b', r')
+  | RdErr x _ _ _ => read_entry dbg e tbl r = Err x
+  | RdPanic => read_entry dbg e tbl r = Panic
+  | RdFuel => read_entry dbg e tbl r = OutOfFuel
+  end.
+Proof. exact read_entry_buf_agrees. Qed.
+
+(* a successful read leaves the same buffer whatever the buffer held before *)
+Theorem read_ok_overwrites_buffer : forall dbg e tbl r b1 b2 k c r',
+  read_entry_buf dbg e tbl r b1 = RdOk k c r' -> read_entry_buf dbg e tbl r b2 = RdOk k c r'.
+Proof. exact read_ok_overwrites. Qed.
+
+(* ANY prior buffer contents, ANY history of operations on the reader (reads, skips, re-opening at any
+   offset; successful or failed): every result, every entry delivered by a successful read and every
+   reader position are the same for two starting buffers ... *)
+Theorem buf_history_independent : forall dbg h tbl (ops : list rop) (s1 s2 : rstate),
+  rs_rd s1 = rs_rd s2 ->
+  map clean (rrun dbg h tbl ops s1) = map clean (rrun dbg h tbl ops s2).
+Proof. exact buf_history_independent_thm. Qed.
+
+(* ... and the same as when every read is given a fresh DebuggingInformationEntry::null().
+   [clean] erases only the buffer contents after a FAILED read, which the API leaves unspecified ("some
+   fields in the entry may be modified") and which do depend on the previous contents: see
+   dirty_buffer_depends_on_history below. *)
+Theorem buf_equals_fresh : forall dbg h tbl (ops : list rop) (s1 s2 : rstate),
+  rs_rd s1 = rs_rd s2 ->
+  map clean (rrun dbg h tbl ops s1) = map clean (rrun_fresh dbg h tbl ops s2).
+Proof. exact buf_equals_fresh_thm. Qed.
+
+(* EntriesCursor: what next_entry / next_dfs return, current() and the reader position do not depend on
+   the cached entry the cursor started with (next_sibling does, by design: it is relative to current()) *)
+Theorem cursor_cache_irrelevant : forall dbg e tbl (ops : list cop) (c1 c2 : cursor),
+  c_raw c1 = c_raw c2 -> forallb no_sibling ops = true ->
+  map cview (crun dbg e tbl ops c1) = map cview (crun dbg e tbl ops c2).
+Proof. exact cursor_cache_irrelevant_thm. Qed.
+
+(* EntriesTree: a history of walks (each = root() + a traversal abandoned after `budget` entries that skips
+   the subtrees of entries whose offset is a multiple of k; complete, abandoned or failing) on ONE tree
+   that is in ANY state with the same root bytes and end offset — in particular the state any earlier
+   walks left — yields what each walk yields on a tree fresh from UnitHeader::entries_tree *)
+Theorem reroot_is_fresh : forall dbg e tbl (h : list (nat * N)) (t t0 : btree),
+  bt_key t = bt_key t0 ->
+  walks dbg e tbl h t = walks_fresh dbg e tbl h t0.
+Proof. exact reroot_is_fresh_thm. Qed.
+
+(* Clones. In a functional model a clone is the same value, so independence of an original and its clone
+   under any interleaving of operations is immediate — stated for the record, for any step machine and
+   for the two iterators modelled here. What it cannot express is ALIASING in the Rust (a derive(Clone)
+   that shares mutable state): that is decided only by the impl-side oracle of stream c20.clone and by
+   the cloned cursors of c20.curm. *)
+Theorem clone_independent : forall (S Op Out : Type) (step : S -> Op -> S * Out) (ops : list (bool * Op)) (a b : S),
+  side false (run2 step ops a b) = run1 step (side false ops) a /\
+  side true (run2 step ops a b) = run1 step (side true ops) b.
+Proof. exact two_copies_independent. Qed.
+
+Theorem cursor_clone_independent : forall dbg e tbl (c : cursor) (ops : list (bool * cop)),
+  side false (run2 (cstep dbg e tbl) ops c c) = crun dbg e tbl (side false ops) c /\
+  side true (run2 (cstep dbg e tbl) ops c c) = crun dbg e tbl (side true ops) c.
+Proof. exact cursor_clone_independent_thm. Qed.
+
+Theorem raw_clone_independent : forall dbg h tbl (s : rstate) (ops : list (bool * rop)),
+  side false (run2 (rstep dbg h tbl) ops s s) = rrun dbg h tbl (side false ops) s /\
+  side true (run2 (rstep dbg h tbl) ops s s) = rrun dbg h tbl (side true ops) s.
+Proof. exact raw_clone_independent_thm. Qed.
+
+(* ---- examples: a unit with DIE(code 1, children, data1 7) { DIE(code 2, data1 9) } ---- *)
+Definition ex_abbrev_bytes : list byte :=
+  [x01; x11; x01; x03; x0b; x00; x00;  x02; x34; x00; x3e; x0b; x00; x00;  x00].
+Definition ex_tbl : abbrevs :=
+  match abbreviations_at true ex_abbrev_bytes 0 with Ok t => t | _ => tbl_empty end.
+Definition ex_enc : enc := mkEnc 4 false 8 false.
+Definition ex_unit (body : list byte) : unit_header :=
+  mkUnit ex_enc (7 + N.of_nat (length body)) UCompile 0 false 0 body.
+Definition ex_body : list byte := [x01; x07; x02; x09; x00].
+Definition ex_start (body : list byte) (b : die) : rstate :=
+  mkRS (match entries_raw true (ex_unit body) None with Ok r => Live r | _ => Broken 0 0 end) b.
+Definition stale : die := mkDie 99 5 52 true [(mkSpec 62 11 0, VData1 200); (mkSpec 3 11 0, VData1 1)].
+
+(* the hypotheses are met by a non-trivial instance: three reads (entry, child, null) then a failing read
+   at the end, a re-open inside the unit, a skip — starting from a stale buffer *)
+Example buf_history_example :
+  map clean (rrun true (ex_unit ex_body) ex_tbl [ORead; ORead; ORead; ORead; OReopen 13; OSkip; ORead]
+                  (ex_start ex_body stale)) =
+  [ OutRead (Ok true) (mkDie 11 0 17 true [(mkSpec 3 11 0, VData1 7)]) (Some (Ok 13, 1%Z, false));
+    OutRead (Ok true) (mkDie 13 1 52 false [(mkSpec 62 11 0, VData1 9)]) (Some (Ok 15, 1%Z, false));
+    OutRead (Ok false) (mkDie 15 1 0 false []) (Some (Ok 16, 0%Z, true));
+    OutRead (Err EUnexpectedEof) null_die None;
+    OutReopen (Ok tt) (Some (Ok 13, 0%Z, false));
+    OutSkip (Ok (Some 52)) (Some (Ok 15, 0%Z, false));
+    OutRead (Ok false) (mkDie 15 0 0 false []) (Some (Ok 16, (-1)%Z, true)) ] /\
+  rs_rd (ex_start ex_body stale) = rs_rd (ex_start ex_body null_die).
+Proof. vm_compute. split; reflexivity. Qed.
+
+(* why [clean] is there: after a read that fails before the tag is stored (here: abbreviation code 5 is
+   not in the table) the buffer keeps its OLD tag and attributes under the NEW offset and depth *)
+Example dirty_buffer_depends_on_history :
+  rrun true (ex_unit [x05]) ex_tbl [ORead] (ex_start [x05] stale) =
+    [OutRead (Err EInvalidAbbreviationCode) (mkDie 11 0 52 true (d_attrs stale)) None] /\
+  rrun true (ex_unit [x05]) ex_tbl [ORead] (ex_start [x05] null_die) =
+    [OutRead (Err EInvalidAbbreviationCode) (mkDie 11 0 0 false []) None] /\
+  (* ... and a failure inside the attributes leaves the new tag and the attributes parsed so far *)
+  rrun true (ex_unit [x01]) ex_tbl [ORead] (ex_start [x01] stale) =
+    [OutRead (Err EUnexpectedEof) (mkDie 11 0 17 true []) None].
+Proof. vm_compute. repeat split. Qed.
+
+Definition ex_tree (b : die) : btree :=
+  match entries_tree_buf true (ex_unit ex_body) None with
+  | Ok t => mkBT (bt_root t) (bt_rd t) b
+  | _ => mkBT [] (Broken 0 0) b
+  end.
+
+(* an abandoned walk, a complete walk, a walk that does not descend — on one tree, starting with a stale entry *)
+Example reroot_example :
+  bt_key (ex_tree stale) = bt_key (ex_tree null_die) /\
+  map (@length wev) (walks true ex_enc ex_tbl [(1%nat, 0); (9%nat, 0); (9%nat, 11)] (ex_tree stale)) = [1; 2; 1]%nat /\
+  walks true ex_enc ex_tbl [(1%nat, 0); (9%nat, 0); (9%nat, 11)] (ex_tree stale) =
+  walks_fresh true ex_enc ex_tbl [(1%nat, 0); (9%nat, 0); (9%nat, 11)] (ex_tree null_die).
+Proof. vm_compute. repeat split. Qed.
+
+Definition ex_cursor (b : die) : cursor :=
+  match entries true (ex_unit ex_body) with Ok c => mkCur (c_raw c) b | _ => mkCur (mkRaw [] 0 0) b end.
+
+Example cursor_cache_example :
+  c_raw (ex_cursor stale) = c_raw (ex_cursor null_die) /\
+  map co_res (crun true ex_enc ex_tbl [CDfs; CEntry; CEntry; CDfs] (ex_cursor stale)) =
+    [Ok true; Ok true; Ok true; Ok false].
+Proof. vm_compute. split; reflexivity. Qed.
+
+Check buf_equals_fresh : forall dbg h tbl (ops : list rop) (s1 s2 : rstate),
+  rs_rd s1 = rs_rd s2 ->
+  map clean (rrun dbg h tbl ops s1) = map clean (rrun_fresh dbg h tbl ops s2).
+Check reroot_is_fresh : forall dbg e tbl (h : list (nat * N)) (t t0 : btree),
+  bt_key t = bt_key t0 -> walks dbg e tbl h t = walks_fresh dbg e tbl h t0.
+
+(* LineRows (state machine of Model/LineRd.v, property C04) and its clone: next_row on either copy in any
+   order gives each copy what it gives alone; in particular a clone taken after k rows yields the same
+   remaining rows as the original. Immediate in the model (see the remark on aliasing above); the tie to
+   gimli is stream c20.linem (clone after k calls, both copies drained, errors included). *)
+Require Import GV.Spec.LineSpec GV.Model.LineRd GV.Model.LineClone.
+Theorem line_rows_clone_independent : forall dbg be resumed h (st : lr_state) (ops : list (bool * unit)),
+  side false (run2 (line_step dbg be resumed h) ops st st) = run1 (line_step dbg be resumed h) (side false ops) st /\
+  side true (run2 (line_step dbg be resumed h) ops st st) = run1 (line_step dbg be resumed h) (side true ops) st.
+Proof. exact line_rows_clone_independent_thm. Qed.
+
+Theorem line_clone_same_tail : forall dbg be h k,
+  let '(_, _, tail_clone, tail_orig) := line_clone dbg be h k in tail_clone = tail_orig.
+Proof. exact line_clone_same_tail_thm. Qed.
+
+(* set_address 0x1000; special 0x4b; advance_pc 3; special 0x20; end_sequence; set_address 0x800; copy;
+   end_sequence  (the sample program of Proofs/LineRdMono.v, repeated here to keep this file's cone small) *)
+Definition ex_line_header : header :=
+  mk_header false 4 4 0 0 1 1 true (-5) 14 13
+    [x00; x01; x01; x01; x01; x00; x00; x00; x01; x00; x00; x01] [] [] [] []
+    [x00; x05; x02; x00; x10; x00; x00;  x4b;  x02; x03;  x20;  x00; x01; x01;
+     x00; x05; x02; x00; x08; x00; x00;  x01;  x00; x01; x01].
+Example line_clone_example :
+  let '(head, early, tail_clone, tail_orig) := line_clone true false ex_line_header 1 in
+  length head = 1%nat /\ early = None /\ Nat.leb 1 (length (fst tail_clone)) = true /\ tail_clone = tail_orig.
+Proof. vm_compute. repeat split. Qed.
